@@ -196,9 +196,13 @@ def boundaryDims : Geom → Dim
   | .polygon p => boundaryOfDims (polyDims p)
   | .multiPoint _ => .empty
   | .multiLineString ls =>
-      -- `MultiLineString::is_closed`: all members closed
+      -- `MultiLineString::is_closed` (all members closed) ⇒ Empty; otherwise (after the `fix:`)
+      -- the mod-2 rule: ZeroDimensional iff some coordinate is an end point of an odd number of
+      -- open members
       if ls.all isClosedLS then .empty else
-      match mlsDims ls with | .one => .zero | _ => .empty
+      let ends := (ls.filter (fun cs => !isClosedLS cs)).flatMap (fun cs =>
+        match cs.head?, cs.getLast? with | some f, some l => [f, l] | _, _ => [])
+      if ends.any (fun e => (ends.filter (· == e)).length % 2 == 1) then .zero else .empty
   | .multiPolygon ps => boundaryOfDims (mpolyDims ps)
   | .rect mn mx => boundaryOfDims (rectDims mn mx)
   | .triangle a b c => boundaryOfDims (triDims a b c)
@@ -224,5 +228,14 @@ def isEmptyList : List Geom → Bool
   | [] => true
   | g :: gs => isEmptyG g && isEmptyList gs
 end
+
+/-- `HasDimensions::is_empty` as reached through the `Geometry` enum. The delegate macro calls
+`g.is_empty()` on the payload, which for `GeometryCollection` (and `MultiPoint`) resolves to the
+*inherent* method of geo-types (`self.0.is_empty()`), not to the `HasDimensions` impl: a collection
+whose only members are empty collections is reported non-empty. (`isEmptyG` above is the point-set
+notion; they differ only on nested empty collections.) -/
+def isEmptyEnum : Geom → Bool
+  | .collection gs => gs.isEmpty
+  | g => isEmptyG g
 
 end Geo
